@@ -34,7 +34,7 @@ def model_replay(spec, n, variant, inst, acts, B, m, extra=None):
     actions = [[int(core.model_value(m, a[b])) for b in range(B)] for a in acts]
     r = {"kind": "episode", "env": {"module": spec.module, "cls": spec.cls, "kwargs": spec.env_kwargs(n, variant)},
          "td": td_json, "batch": [B], "actions": actions, "checker": False, "spec": spec.name, "n": n, "variant": variant,
-         "record": list(spec.record)}
+         "record": list(spec.record), "exact_model": WITNESS_EXACT[0]}
     if extra:
         r.update(extra)
     return r
@@ -98,14 +98,20 @@ def candidate_models(E, neg, inst):
     return out
 
 
+WITNESS_EXACT = [True]  # was the last witness model exact w.r.t. the distance abstraction (dyadic, collinear)?
+
+
 def witness_model(E, inst):
     try:
         m = dyadic_model(E, [MARGIN_VAR == 0], inst)
         if m is not None:
+            WITNESS_EXACT[0] = True
             return m
     except Exception:  # noqa: BLE001
         pass
     if E.check(MARGIN_VAR == 0) == z3.sat:
+        # only a model in which distances are whatever the abstraction allows: a real run need not follow it
+        WITNESS_EXACT[0] = not getattr(inst, "ycoords", None)
         return E.model()
     return None
 
